@@ -9,7 +9,7 @@ CONSTANTS
   MsV = {}
   CdV = {}
   StV = {0, 1}
-  MaxOps = 7
+  MaxOps = 6
   MaxDepth = 3
   MaxCommits = 2
   Export = "none"
